@@ -100,14 +100,88 @@ PLAN = {
 }
 PLAN['C06'] = dict(PLAN['C10'])
 
+
+def width_patterns(kmax):
+    import itertools
+    out = []
+    for k in range(0, kmax + 1):
+        for seq in itertools.product([1, 2, 3, 4], repeat=k):
+            out.append(''.join(map(str, seq)) or 'empty')
+    return out
+
+
+def c05_units(tier, rng):
+    pats = width_patterns(3)
+    if tier != 'thorough':
+        # quick: the boundary witnesses (multi-byte vs count) always, plus a seed-chosen sample
+        fixed = ['empty', '1', '2', '3', '4', '21', '13', '444']
+        rest = [p for p in pats if p not in fixed]
+        pats = fixed + rng.sample(rest, 6)
+    return [('e1', 'c05_sv_' + p, f'string of {0 if p == "empty" else len(p)} Unicode scalar values with UTF-8 widths {p}: every code point of each width class; '
+             'minLength, maxLength: each absent or any u32') for p in pats]
+
+
+def c09_units(tier, rng):
+    hs = [('c09_it_00', 'type keyword absent on both sides; probe type: any of the 7 JSON types'),
+          ('c09_it_01', 'absent x single type (any of 7); probe type any'),
+          ('c09_it_02', 'absent x list of two types (any of 7 each); probe type any'),
+          ('c09_it_11', 'single x single (49 pairs); probe type any'),
+          ('c09_it_12', 'single x list of two; probe type any'),
+          ('c09_it_13', 'single x list of three; probe type any'),
+          ('c09_array_len', 'minItems/maxItems of both operands each absent or any u32, uniqueItems of both in {absent,false,true}; probe length any u32'),
+          ('c09_format', 'format of both operands from {absent, ip, ipv4, ipv6, int8, int32, uuid, date-time, x}')]
+    return [('e1', h, d) for h, d in hs]
+
+
+PLAN['C05'] = {
+    'engines': ['e1'],
+    'units': c05_units,
+    'timeout': {'quick': 900, 'thorough': 1800},
+    'technique': 'bounded symbolic execution + SAT (Kani/CBMC) of StringValidator over all code points of strings up to 3 scalar values',
+    'level_text': 'bounded symbolic verification (Kani/CBMC) of the generation-time enum-value length filter (util::StringValidator) for every string of up to 3 Unicode scalar values (all code points, every UTF-8 width pattern) and all u32 min/max; the generated-code half of C05 is checked by engine E2 where built',
+    'level_note': "trusts Kani's MIR-to-goto translation, CBMC and CaDiCaL; strings are built valid-by-construction (from_utf8_unchecked over bytes encoded from assumed-valid code points)",
+    'functions': ['typify_impl::util::StringValidator::{new, is_valid} (typify-impl/src/util.rs) via verif_hooks::string_validator_is_valid'],
+    'bounds': {'strings': 'all strings of <= 3 Unicode scalar values: 85 UTF-8 width patterns, one harness each, every code point of the width class symbolic (quick: 8 fixed boundary patterns + 6 seed-chosen; thorough: all 85)',
+               'minLength/maxLength': 'each absent or any u32', 'unwind': 24},
+    'outside': ['strings longer than 3 scalar values', 'pattern (regress is not executed symbolically)',
+                'the generated-code enforcement (FromStr/TryFrom/Deserialize of constrained newtypes, enums, deny lists, required members, closed objects, tuple arity): engine E2',
+                '"no public constructor or public field" (a syntactic scan of rendered tokens, not a solver question)'],
+    'assumptions': ['code points are assumed inside their UTF-8 width class, surrogates excluded', 'CBMC/Kani translation of the compiled MIR is trusted'],
+    'explanation': ('Bounded symbolic verification (Kani/CBMC, SAT) of the real StringValidator compiled from /repo: for every string of up to 3 Unicode scalar values '
+                    '(concrete UTF-8 byte layout per harness, all code points symbolic) and every minLength/maxLength in Option<u32>, is_valid(s) equals '
+                    'min <= number of scalar values <= max. This is the filter that decides which enum values survive a string enum with length constraints. '
+                    'No state graph is explored, hence level "other".'),
+}
+
+PLAN['C09'] = {
+    'engines': ['e1'],
+    'units': c09_units,
+    'timeout': {'quick': 900, 'thorough': 1800},
+    'technique': 'bounded symbolic execution + SAT (Kani/CBMC) of the leaf merge kernels: intersection and commutativity',
+    'level_text': 'bounded symbolic verification (Kani/CBMC) of three leaf kernels that allOf merging bottoms out in (merge_so_instance_type per operand layout, merge_so_array length/uniqueness bounds, merge_so_format): merged constraint admits a probe iff both operands do, in both argument orders, Err iff nothing is admitted. Everything else in merge.rs is outside the claim',
+    'level_note': "trusts Kani's MIR-to-goto translation, CBMC and CaDiCaL; draft-07 reading of `type` where number admits integers",
+    'functions': ['typify_impl::merge::merge_so_instance_type', 'typify_impl::merge::merge_so_array (items absent)', 'typify_impl::merge::merge_so_format',
+                  'typify_impl::merge::choose_value', 'via verif_hooks::{merge_instance_type, merge_array, merge_format}'],
+    'bounds': {'instance types': 'operand layouts absent / single / list of 2 / list of 3 in the 6 combinations that do not build a data-dependent heap set (list x list goes through BTreeSet and does not return under CBMC: measured, outside); every type value symbolic over the 7 JSON types; probe type symbolic',
+               'arrays': 'minItems/maxItems each absent or any u32 on both sides, uniqueItems in {absent,false,true}, items/additionalItems/contains absent; probe length any u32',
+               'formats': '9 x 9 pairs over {absent, ip, ipv4, ipv6, int8, int32, uuid, date-time, x} (symbolic index): order independence, idempotence, identity only',
+               'unwind': 24},
+    'outside': ['object/property merging, $ref resolution with `roughly`, enum-value merging, number/string validation merging (unimplemented!() in typify)',
+                'distribution over anyOf/oneOf/not', 'permutations of >= 3 subschemas', 'list x list instance types (BTreeSet under CBMC: no verdict in 20 min)',
+                'array items/additionalItems/contains', 'the link from the merged schema to the accept-vector of the compiled type'],
+    'assumptions': ['draft-07 semantics: a value of JSON type integer is admitted by `type: number`', 'CBMC/Kani translation of the compiled MIR is trusted'],
+    'explanation': ('Bounded symbolic verification (Kani/CBMC, SAT) of the real leaf merge functions compiled from /repo. For the `type` keyword: for all type values in each operand '
+                    'layout and every probe type, merge(a,b) admits the probe iff a and b both admit it, merge(b,a) agrees, and Err is returned exactly when no type is admitted. '
+                    'For arrays: the same with all u32 minItems/maxItems and a probe length, plus uniqueItems as a conjunction. For formats: commutativity, idempotence, identity. '
+                    'No state graph is explored, hence level "other".'),
+}
+
 # Claimed in DESIGN.md but not built yet: listed as not applicable until their
 # check exists (MANIFEST must never claim what does not run).
 NOT_YET = {
     'C02': 'planned (engine E2, generated-code harnesses): not built yet in this snapshot',
     'C03': 'planned (engine E2): not built yet in this snapshot',
     'C04': 'planned second wave (engine E2): not built yet in this snapshot',
-    'C05': 'planned (engines E1+E2): not built yet in this snapshot',
-    'C09': 'planned (engine E1 merge kernels): not built yet in this snapshot',
     'C11': 'planned (engine E2): not built yet in this snapshot',
     'C14': 'planned second wave (engine E2): not built yet in this snapshot',
     'C18': 'planned (engine E2): not built yet in this snapshot',
